@@ -9,12 +9,16 @@ rows = {}
 mpath = os.path.join(V, "seeded", "MATRIX.json")
 if os.path.exists(mpath):
     rows = json.load(open(mpath))
-for d in sorted(os.listdir(os.path.join(V, "seeded"))):
+import concurrent.futures, threading
+lock = threading.Lock()
+jobs = int(os.environ.get("SEED_JOBS", "2"))
+
+
+def one(d):
     p = os.path.join(V, "seeded", d, "patch.diff")
-    if not os.path.exists(p) or (only and d not in only):
-        continue
     prop = d.split("-")[0]
-    props = [prop] + EXTRA.get(d, [])
+    props = [prop] + EXTRA.get(d, []) + EXTRA.get(d.rstrip("2"), [])
+    props = list(dict.fromkeys(props))
     r = subprocess.run([os.path.join(V, "tools", "try_mutant.py"), ",".join(props), "--patch", p], capture_output=True, text=True)
     out = r.stdout
     res = {}
@@ -25,9 +29,15 @@ for d in sorted(os.listdir(os.path.join(V, "seeded"))):
         obl = sorted({re.search(r"obligation=(\S+)", v).group(1).rsplit("#", 1)[0] for v in viol if re.search(r"obligation=(\S+)", v)})
         replayed = sum(1 for v in viol if not v.endswith("no-failing-input-found"))
         res[pid] = dict(exit=int(m.group(1)) if m else None, violations=len(viol), replayed_on_real_code=replayed, obligations=obl[:4])
-    rows[d] = res
-    print(d, {k: (v["exit"], v["violations"], v["replayed_on_real_code"]) for k, v in res.items()}, flush=True)
-    json.dump(rows, open(mpath, "w"), indent=1)
+    with lock:
+        rows[d] = res
+        print(d, {k: (v["exit"], v["violations"], v["replayed_on_real_code"]) for k, v in res.items()}, flush=True)
+        json.dump(rows, open(mpath, "w"), indent=1)
+
+
+todo = [d for d in sorted(os.listdir(os.path.join(V, "seeded"))) if os.path.exists(os.path.join(V, "seeded", d, "patch.diff")) and (not only or d in only)]
+with concurrent.futures.ThreadPoolExecutor(jobs) as ex:
+    list(ex.map(one, todo))
 with open(os.path.join(V, "seeded", "MATRIX.md"), "w") as f:
     f.write("| seeded change | written for | caught by (exit 1) | failing obligations (first) | with replayed input |\n|---|---|---|---|---|\n")
     for d, res in sorted(rows.items()):
